@@ -1,0 +1,209 @@
+//go:build verif
+
+// Machine-checked contracts for package spatial (comment-only file; see /verif/DESIGN.md).
+package spatial
+
+//@ -- C20: vector / point / line / matrix helpers over ideal reals (float64 treated as real numbers; says nothing about
+//@ -- rounding).  The gonum r3 functions the vector helpers delegate to are translated from their source and verified inline.
+//@ func NewVectorFromPoints
+//@   props C20
+//@   float ideal
+//@   ensures r0.X == q.X - p.X && r0.Y == q.Y - p.Y && r0.Z == q.Z - p.Z
+//@ end
+
+//@ func Vector3.Add
+//@   props C20
+//@   float ideal
+//@   ensures r0.X == a.X + b.X && r0.Y == a.Y + b.Y && r0.Z == a.Z + b.Z
+//@ end
+
+//@ func Vector3.Sub
+//@   props C20
+//@   float ideal
+//@   ensures r0.X == a.X - b.X && r0.Y == a.Y - b.Y && r0.Z == a.Z - b.Z
+//@ end
+
+//@ func Vector3.Scale
+//@   props C20
+//@   float ideal
+//@   ensures r0.X == f * a.X && r0.Y == f * a.Y && r0.Z == f * a.Z
+//@ end
+
+//@ func Vector3.Dot
+//@   props C20
+//@   float ideal
+//@   ensures r0 == a.X * b.X + a.Y * b.Y + a.Z * b.Z
+//@ end
+
+//@ func Vector3.Cross
+//@   props C20
+//@   float ideal
+//@   ensures r0.X == a.Y * b.Z - a.Z * b.Y && r0.Y == a.Z * b.X - a.X * b.Z && r0.Z == a.X * b.Y - a.Y * b.X
+//@ end
+
+//@ func Vector3.L1Norm
+//@   props C20
+//@   float ideal
+//@   ensures r0 == abs(a.X) + abs(a.Y) + abs(a.Z)
+//@ end
+
+//@ func Point3.Translate
+//@   props C20
+//@   float ideal
+//@   ensures r0.X == p.X + a.X && r0.Y == p.Y + a.Y && r0.Z == p.Z + a.Z
+//@ end
+
+//@ func NewLineFromPoints
+//@   props C20
+//@   float ideal
+//@   ensures r0.Point == start
+//@   ensures r0.Direction.X == end.X - start.X && r0.Direction.Y == end.Y - start.Y && r0.Direction.Z == end.Z - start.Z
+//@ end
+
+//@ func Line3.ToPoint
+//@   props C20
+//@   float ideal
+//@   ensures r0.X == l.Point.X + t * l.Direction.X && r0.Y == l.Point.Y + t * l.Direction.Y && r0.Z == l.Point.Z + t * l.Direction.Z
+//@ end
+
+//@ func Line3.End
+//@   props C20
+//@   float ideal
+//@   ensures r0.X == l.Point.X + l.Direction.X && r0.Y == l.Point.Y + l.Direction.Y && r0.Z == l.Point.Z + l.Direction.Z
+//@ end
+
+//@ func Line3.Start
+//@   props C20
+//@   float ideal
+//@   ensures r0 == l.Point
+//@ end
+
+//@ func NewMatrix3
+//@   props C20
+//@   float ideal
+//@   ensures r0[0][0] == m00 && r0[0][1] == m01 && r0[0][2] == m02 && r0[1][0] == m10 && r0[1][1] == m11 && r0[1][2] == m12 && r0[2][0] == m20 && r0[2][1] == m21 && r0[2][2] == m22
+//@ end
+
+//@ func NewUnitMatrix3
+//@   props C20
+//@   float ideal
+//@   ensures r0[0][0] == 1.0 && r0[0][1] == 0.0 && r0[0][2] == 0.0 && r0[1][0] == 0.0 && r0[1][1] == 1.0 && r0[1][2] == 0.0 && r0[2][0] == 0.0 && r0[2][1] == 0.0 && r0[2][2] == 1.0
+//@ end
+
+//@ func Matrix3.Mul
+//@   props C20
+//@   float ideal
+//@   ensures [row0] r0[0][0] == a[0][0]*b[0][0] + a[0][1]*b[1][0] + a[0][2]*b[2][0] && r0[0][1] == a[0][0]*b[0][1] + a[0][1]*b[1][1] + a[0][2]*b[2][1] && r0[0][2] == a[0][0]*b[0][2] + a[0][1]*b[1][2] + a[0][2]*b[2][2]
+//@   ensures [row1] r0[1][0] == a[1][0]*b[0][0] + a[1][1]*b[1][0] + a[1][2]*b[2][0] && r0[1][1] == a[1][0]*b[0][1] + a[1][1]*b[1][1] + a[1][2]*b[2][1] && r0[1][2] == a[1][0]*b[0][2] + a[1][1]*b[1][2] + a[1][2]*b[2][2]
+//@   ensures [row2] r0[2][0] == a[2][0]*b[0][0] + a[2][1]*b[1][0] + a[2][2]*b[2][0] && r0[2][1] == a[2][0]*b[0][1] + a[2][1]*b[1][1] + a[2][2]*b[2][1] && r0[2][2] == a[2][0]*b[0][2] + a[2][1]*b[1][2] + a[2][2]*b[2][2]
+//@ end
+
+//@ func Matrix3.MulVec
+//@   props C20
+//@   float ideal
+//@   ensures r0.X == a[0][0]*v.X + a[0][1]*v.Y + a[0][2]*v.Z && r0.Y == a[1][0]*v.X + a[1][1]*v.Y + a[1][2]*v.Z && r0.Z == a[2][0]*v.X + a[2][1]*v.Y + a[2][2]*v.Z
+//@ end
+
+//@ -- C20 laws, proved over the contracts above (ideal reals)
+//@ lemma C20_line_parameter_0_and_1_give_the_end_points
+//@   props C20
+//@   float ideal
+//@   var s Point3
+//@   var e Point3
+//@   call l := NewLineFromPoints(s, e)
+//@   call p0 := Line3.ToPoint(l, 0.0)
+//@   call p1 := Line3.ToPoint(l, 1.0)
+//@   call ps := Line3.Start(l)
+//@   call pe := Line3.End(l)
+//@   assert [t0] p0 == s && ps == s
+//@   assert [t1] p1 == e && pe == e
+//@ end
+
+//@ lemma C20_matrix_product_is_associative
+//@   props C20
+//@   float ideal
+//@   tactic nlsat
+//@   var a Matrix3
+//@   var b Matrix3
+//@   var c Matrix3
+//@   call ab := Matrix3.Mul(a, b)
+//@   call bc := Matrix3.Mul(b, c)
+//@   call l := Matrix3.Mul(ab, c)
+//@   call r := Matrix3.Mul(a, bc)
+//@   assert [e00] l[0][0] == r[0][0]
+//@   assert [e01] l[0][1] == r[0][1]
+//@   assert [e02] l[0][2] == r[0][2]
+//@   assert [e10] l[1][0] == r[1][0]
+//@   assert [e11] l[1][1] == r[1][1]
+//@   assert [e12] l[1][2] == r[1][2]
+//@   assert [e20] l[2][0] == r[2][0]
+//@   assert [e21] l[2][1] == r[2][1]
+//@   assert [e22] l[2][2] == r[2][2]
+//@ end
+
+//@ lemma C20_matrix_product_agrees_with_application
+//@   props C20
+//@   float ideal
+//@   tactic nlsat
+//@   var a Matrix3
+//@   var b Matrix3
+//@   var v Vector3
+//@   call ab := Matrix3.Mul(a, b)
+//@   call bv := Matrix3.MulVec(b, v)
+//@   call l := Matrix3.MulVec(ab, v)
+//@   call r := Matrix3.MulVec(a, bv)
+//@   assert [x] l.X == r.X
+//@   assert [y] l.Y == r.Y
+//@   assert [z] l.Z == r.Z
+//@ end
+
+//@ lemma C20_unit_matrix_is_neutral
+//@   props C20
+//@   float ideal
+//@   var a Matrix3
+//@   var v Vector3
+//@   call u := NewUnitMatrix3()
+//@   call l := Matrix3.Mul(u, a)
+//@   call r := Matrix3.Mul(a, u)
+//@   call w := Matrix3.MulVec(u, v)
+//@   assert [left] l[0][0] == a[0][0] && l[0][1] == a[0][1] && l[0][2] == a[0][2] && l[1][0] == a[1][0] && l[1][1] == a[1][1] && l[1][2] == a[1][2] && l[2][0] == a[2][0] && l[2][1] == a[2][1] && l[2][2] == a[2][2]
+//@   assert [right] r[0][0] == a[0][0] && r[0][1] == a[0][1] && r[0][2] == a[0][2] && r[1][0] == a[1][0] && r[1][1] == a[1][1] && r[1][2] == a[1][2] && r[2][0] == a[2][0] && r[2][1] == a[2][1] && r[2][2] == a[2][2]
+//@   assert [vector] w == v
+//@ end
+
+//@ lemma C20_vector_identities
+//@   props C20
+//@   float ideal
+//@   var a Vector3
+//@   var b Vector3
+//@   var p Point3
+//@   var q Point3
+//@   call s := Vector3.Add(a, b)
+//@   call d := Vector3.Sub(s, b)
+//@   call pq := NewVectorFromPoints(p, q)
+//@   call q2 := Point3.Translate(p, pq)
+//@   assert [add-sub] d == a
+//@   assert [translate-by-difference] q2 == q
+//@ end
+
+//@ lemma C20_dot_and_cross_product_identities
+//@   props C20
+//@   float ideal
+//@   tactic nlsat
+//@   var a Vector3
+//@   var b Vector3
+//@   call ab := Vector3.Cross(a, b)
+//@   call ba := Vector3.Cross(b, a)
+//@   call aa := Vector3.Cross(a, a)
+//@   call n := Vector3.Dot(ab, a)
+//@   call m := Vector3.Dot(ab, b)
+//@   call dab := Vector3.Dot(a, b)
+//@   call dba := Vector3.Dot(b, a)
+//@   assert [cross-anticommutes-x] ab.X == 0.0 - ba.X
+//@   assert [cross-anticommutes-y] ab.Y == 0.0 - ba.Y
+//@   assert [cross-anticommutes-z] ab.Z == 0.0 - ba.Z
+//@   assert [cross-self-zero] aa.X == 0.0 && aa.Y == 0.0 && aa.Z == 0.0
+//@   assert [cross-orthogonal-a] n == 0.0
+//@   assert [cross-orthogonal-b] m == 0.0
+//@   assert [dot-commutes] dab == dba
+//@ end
